@@ -359,4 +359,44 @@ def c11_container_name(fname="evidence#1.avro"):
     ok = files == [fname] and back == [5] and (not avro or (head == b"Obj\x01" and wcls == "AvroWriter" and rcls == "AvroReader"))
     return {"violates": not ok, "detail": f"{fname}: directory {files}, leading bytes {head!r}, written by {wcls}, read by {rcls}: {back!r}"}
 
-CALLS = {"c11_container_name": c11_container_name, "c11_clobber": c11_clobber, "c11_hash_name": c11_hash_name, "c11_concurrent": c11_concurrent, "c11_matrix": c11_matrix, "c11_adapters": c11_adapters, "c11_refuse": c11_refuse, "c11_sweep": c11_sweep, "c11_model_conformance": c11_model_conformance}
+
+def c11_multiframe_zstd():
+    """a .zst file made of two zstd frames whose boundary lies inside a record frame (pzstd, cat a.zst b.zst): by path, by neutral name, as file object"""
+    import io
+
+    import zstandard
+
+    from flow.record import RecordDescriptor, RecordReader
+    from flow.record.stream import RecordStreamWriter
+
+    D = RecordDescriptor("c11/rec", [("varint", "n"), ("string", "s")])
+    b = io.BytesIO()
+    w = RecordStreamWriter(b)
+    for i in range(50):
+        w.write(D(n=i, s="x" * i))
+    w.flush()
+    data = b.getvalue()
+    w.fp = None
+    c = zstandard.ZstdCompressor()
+    bad = []
+    with tempfile.TemporaryDirectory() as td:
+        for cut in (len(data) // 2 + 1, 20, 19 + 2):
+            mf = c.compress(data[:cut]) + c.compress(data[cut:])
+            for label, fname in (("path .zst", "two.records.zst"), ("neutral name", "two.bin")):
+                p = os.path.join(td, fname)
+                open(p, "wb").write(mf)
+                try:
+                    got = [r.n for r in RecordReader(p)]
+                except Exception as e:
+                    got = f"{type(e).__name__}: {e}"
+                if got != list(range(50)):
+                    bad.append(f"{label}, frame boundary at byte {cut}: {len(got) if isinstance(got, list) else got} of 50 records")
+            try:
+                got = [r.n for r in RecordReader(fileobj=open(p, "rb"))]
+            except Exception as e:
+                got = f"{type(e).__name__}: {e}"
+            if got != list(range(50)):
+                bad.append(f"file object, frame boundary at byte {cut}: {len(got) if isinstance(got, list) else got} of 50 records")
+    return {"violates": bool(bad), "detail": bad[:4]}
+
+CALLS = {"c11_multiframe_zstd": c11_multiframe_zstd, "c11_container_name": c11_container_name, "c11_clobber": c11_clobber, "c11_hash_name": c11_hash_name, "c11_concurrent": c11_concurrent, "c11_matrix": c11_matrix, "c11_adapters": c11_adapters, "c11_refuse": c11_refuse, "c11_sweep": c11_sweep, "c11_model_conformance": c11_model_conformance}
